@@ -155,6 +155,10 @@ static MPT_STRUCT(buffer) *_mpt_buffer_alloc_detach(MPT_STRUCT(buffer) *ptr, siz
 				}
 				add = len;
 			}
+			/* elements without finalizer are dropped like raw data */
+			else {
+				add = len;
+			}
 		}
 		/* copy remaining data to new location */
 		if (add) {
